@@ -1370,3 +1370,50 @@ Section Concrete.
       + constructor; [|constructor]. split; [apply k_at_ok|exact Ha].
   Qed.
 End Concrete.
+
+(* ---------- the raw request IS the model request (typed reading), not only lookup-equivalent ---------- *)
+
+Lemma filter_filter {A} (f g : A -> bool) l : filter f (filter g l) = filter (fun x => g x && f x) l.
+Proof.
+  induction l as [|x l IH]; [reflexivity|]. simpl. destruct (g x); simpl; [destruct (f x); now rewrite IH|exact IH].
+Qed.
+
+Lemma qdel_app k q1 q2 : qdel k (q1 ++ q2) = qdel k q1 ++ qdel k q2.
+Proof. induction q1 as [|[k' v] q1 IH]; simpl; [reflexivity|]. destruct (str_eqb k' k); simpl; now rewrite IH. Qed.
+
+Lemma qdel_vsmap k l : qdel k (vsmap l) = vsmap (filter (fun kv => negb (str_eqb (fst kv) k)) l).
+Proof.
+  induction l as [|[k' v] l IH]; [reflexivity|]. unfold vsmap in *. cbn [map filter fst qdel].
+  destruct (str_eqb k' k); cbn [negb]; [exact IH|]. cbn [map fst]. now rewrite IH.
+Qed.
+
+Definition typed_query (raw : str) : query := vsmap (parse_query_lenient raw).
+
+Theorem request_query_exact c p raw last :
+  Forall byte_ok last -> (c_n c < 10 ^ 40)%Z ->
+  typed_query (request_query c raw last) = u_query (mk_request c (mkUrl p (typed_query raw)) last).
+Proof.
+  intros Hl Hn. unfold request_query, page_params, mk_request, typed_query. cbn [u_query].
+  assert (TN : forall n, n < 10 ^ 40 -> tval (k_n, itoa n) = VN n).
+  { intros n H. unfold tval. cbn [fst snd]. rewrite str_eqb_refl. now rewrite (atoi_itoa n H). }
+  assert (TL : tval (k_last, last) = VS last).
+  { unfold tval. cbn [fst snd]. now rewrite (str_eqb_neq k_last k_n) by (intro E; symmetry in E; now apply k_n_neq_last in E). }
+  destruct (0 <? c_n c)%Z eqn:E0; destruct (sends_last (c_kind c) && negb (is_empty last)); cbn [app].
+  - apply Z.ltb_lt in E0.
+    rewrite set_query_params_spec by (repeat constructor; try apply k_n_ok; try apply itoa_ok; try apply k_last_ok; assumption).
+    unfold qset. rewrite qdel_app. cbn [qdel]. rewrite (str_eqb_neq k_n k_last) by exact k_n_neq_last.
+    rewrite !qdel_vsmap. rewrite filter_filter. unfold vsmap at 1. rewrite map_app. cbn [map fst].
+    rewrite <- app_assoc. f_equal.
+    + unfold vsmap. f_equal. apply filter_ext. intros [k' v']. unfold not_set. cbn [existsb fst].
+      rewrite orb_false_r. now rewrite negb_orb.
+    + cbn [app]. rewrite TN by lia. repeat f_equal; try exact TL.
+  - apply Z.ltb_lt in E0.
+    rewrite set_query_params_spec by (repeat constructor; try apply k_n_ok; apply itoa_ok).
+    unfold qset. rewrite qdel_vsmap. unfold vsmap at 1. rewrite map_app. cbn [map fst]. f_equal.
+    + unfold vsmap. f_equal. apply filter_ext. intros [k' v']. unfold not_set. cbn [existsb fst]. now rewrite orb_false_r.
+    + rewrite TN by lia. reflexivity.
+  - rewrite set_query_params_spec by (repeat constructor; try apply k_last_ok; assumption).
+    unfold qset. rewrite qdel_vsmap. unfold vsmap at 1. rewrite map_app. cbn [map fst]. f_equal.
+    unfold vsmap. f_equal. apply filter_ext. intros [k' v']. unfold not_set. cbn [existsb fst]. now rewrite orb_false_r.
+  - reflexivity.
+Qed.
